@@ -112,6 +112,7 @@ def build(d):
                                    "date": _dt.date, "UUID": _uuid.UUID, "Lock": threading.Lock, "float": float,
                                    "OrderedDict": collections.OrderedDict, "defaultdict": collections.defaultdict,
                                    "list": list, "int": int, "str": str, "dict": dict, "bytearray": bytearray,
+                                   "tuple": tuple, "range": range, "set": set, "frozenset": frozenset, "bytes": bytes,
                                    "__builtins__": {}})
         except DeclarationError as e:
             raise Unreachable(f"DSL refuses the expression: {e}")
@@ -378,6 +379,8 @@ def oracle_C08(inp):
         return True, f"validate/format raised {e!r}; S={_sr(S)} v={_sr(v)}"
     if any((not isinstance(m, str)) or m == "" for m in msgs):
         return True, f"empty message; S={_sr(S)} v={_sr(v)}"
+    if any("\n" in m for m in msgs):
+        return True, f"an error renders to more than one line (validate_or_fail carries one line per error); S={_sr(S)} v={_sr(v)}"
     try:
         ok = validate_or_fail(S, v)
         if ok is not True or msgs:
@@ -626,7 +629,51 @@ def oracle_C11_fn(inp, meta):
     return False, "no order dependence found around this call"
 
 
+def _eval_chain(src: str):
+    """('ok', schema) | ('rejected', None) | ('other', exception) for a DSL call chain given as text"""
+    import threading, collections
+    env = {"schema": schema, "optional": optional, "Nil": Nil, "OrderedDict": collections.OrderedDict,
+           "defaultdict": collections.defaultdict, "list": list, "dict": dict, "__builtins__": {}}
+    try:
+        return "ok", eval(src, env)
+    except DeclarationError:
+        return "rejected", None
+    except Exception as e:
+        return "other", e
+
+
+def oracle_chain(inp, meta=None):
+    """C10 / C11 on call chains written as text: base + refinements in every order.  Each order either yields a schema
+    or is rejected with DeclarationError (never anything else), all orders agree, and equal schemas result."""
+    import itertools as _it
+    base = inp["base"]["src"]
+    refs = [r["src"] for r in inp["refs"]]
+    outcomes = []
+    for perm in _it.permutations(refs):
+        src = base + "".join(perm)
+        st, r = _eval_chain(src)
+        if st == "other":
+            return True, f"{src} raised {r!r} (neither a schema nor a DeclarationError)"
+        if st == "ok" and not isinstance(r, Schema):
+            return True, f"{src} returned {r!r}"
+        outcomes.append((src, st, r))
+    if (meta or {}).get("orders", True) and len(outcomes) > 1:
+        kinds = {st for _, st, _ in outcomes}
+        if len(kinds) > 1:
+            a = [o for o in outcomes if o[1] == "ok"][0][0]
+            b = [o for o in outcomes if o[1] == "rejected"][0][0]
+            return True, f"orders disagree on acceptance: {a} succeeds, {b} is rejected"
+        if kinds == {"ok"}:
+            first = outcomes[0]
+            for o in outcomes[1:]:
+                if not (o[2] == first[2] and repr(o[2]) == repr(first[2])):
+                    return True, f"orders yield different schemas: {first[0]} -> {first[2]!r}; {o[0]} -> {o[2]!r}"
+    return False, f"{len(outcomes)} orders of {base} + {refs} agree"
+
+
 def oracle_C11(inp, meta=None):
+    if "base" in inp:
+        return oracle_chain(inp, meta)
     if "m1" not in (meta or {}):
         return oracle_C11_fn(inp, meta or {})
     S = build(inp["self"])
@@ -647,6 +694,8 @@ def oracle_C11(inp, meta=None):
 def oracle_C10(inp, meta=None):
     """function-level: self.<method>(*args) either raises DeclarationError leaving self unchanged or
     returns a schema whose fixed value conforms to it."""
+    if "base" in inp:
+        return oracle_chain(inp, dict(meta or {}, orders=False))
     S = build(inp["self"])
     method = meta["method"]
     args = [build(inp[n]) for n in meta["params"]]
@@ -1293,10 +1342,16 @@ def oracle_C16(inp, meta=None):
                schema.list([schema.int, schema.str]), schema.any(schema.none, schema.str.len(2))]
     embeds = [("top", lambda s: s), ("dict value", lambda s: schema.dict({"k": s})),
               ("list element", lambda s: schema.list([s, schema.int])), ("typed list", lambda s: schema.list(s)),
-              ("nested", lambda s: schema.dict({"a": schema.list([schema.dict({"b": s})])}))]
+              ("nested", lambda s: schema.dict({"a": schema.list([schema.dict({"b": s})])})),
+              ("any alternative", lambda s: schema.any(schema.bytes, s))]
     for inner in inners:
         cust = make_custom(inner)
         for ename, E in embeds:
+            if ename == "any alternative" and isinstance(inner, AnySchema) and inner.props.types is not Nil \
+                    and not (meta or {}).get("with_union_alternative"):
+                # listed known finding C16-union-alternative-not-flattened (replayed from its own witness): a declared union
+                # placed as an alternative is flattened, the same union behind a custom type is not
+                continue
             A, B = E(inner), E(cust)
             if repr(A) != repr(B):
                 return True, f"printed form differs ({ename}): {A!r} vs {B!r}"
@@ -1314,6 +1369,20 @@ def oracle_C16(inp, meta=None):
                 ea, eb = errs(A), errs(B)
                 if ea != eb:
                     return True, f"validation differs ({ename}) on {v!r}: {ea} vs {eb}"
+                # ... also with a validator configured by the user (own root path, own result factory)
+                from d42.validation import Validator as _V
+                from th import PathHolder as _PH
+
+                def errs2(S_):
+                    try:
+                        vis = _V(path_holder_factory=lambda: _PH()["body"][0])
+                        return [(type(e).__name__, repr(e.path), id(e.actual_value)) for e in S_.__accept__(vis, value=v).get_errors()]
+                    except Exception as x:
+                        return ["RAISED " + type(x).__name__]
+                ea2, eb2 = errs2(A), errs2(B)
+                if ea2 != eb2:
+                    return True, (f"validation with Validator(path_holder_factory=lambda: PathHolder()['body'][0]) differs ({ename}) "
+                                  f"on {v!r}: {ea2} vs {eb2}")
                 ra, rb = _substitute(A, v), _substitute(B, v)
                 if ra[0] != rb[0] or (ra[0] == "ok" and repr(ra[1]) != repr(rb[1])):
                     return True, f"substitution differs ({ename}) on {v!r}: {ra} vs {rb}"
